@@ -307,7 +307,7 @@ NN_P2 = [[0], [2], [0, 2], "all", [0, 1, 2], [1, 2], [0, 1]]
 
 
 @st.composite
-def _p2_case(draw, iters, inits=("random", "svd", "user_p2", "user_cp"), ls_tol0=False, ls_all=False):
+def _p2_case(draw, iters, inits=("random", "svd", "user_p2", "user_cp"), ls_tol0=False, ls_all=False, ls_end=False):
     n_slices = draw(st.integers(2, 4))
     K = draw(st.integers(2, 4))
     rank = draw(st.integers(1, min(3, K)))
@@ -315,7 +315,7 @@ def _p2_case(draw, iters, inits=("random", "svd", "user_p2", "user_cp"), ls_tol0
     uniform = draw(st.booleans()) or init == "user_cp"
     J0 = draw(st.integers(rank, 4))
     Js = [J0] * n_slices if uniform else [draw(st.integers(rank, 4)) for _ in range(n_slices)]
-    kind = draw(st.sampled_from(["normal", "nonneg", "sparse", "allneg", "int", "lowrank_nonneg"]))
+    kind = draw(st.sampled_from(["normal", "nonneg", "sparse", "allneg", "int", "lowrank_nonneg", "sparse_p2", "sparse_p2"]))
     c = {"Js": Js, "K": K, "rank": rank, "init": init, "kind": kind, "dseed": draw(gen.seeds),
          "as_array": bool(uniform and draw(st.booleans())),
          "seed": draw(st.integers(0, 10 ** 6)), "n_iter": draw(st.integers(iters[0], iters[1])),
@@ -328,6 +328,26 @@ def _p2_case(draw, iters, inits=("random", "svd", "user_p2", "user_cp"), ls_tol0
         c["uB"] = draw(gen.arr([rank if init == "user_p2" else J0, rank], kinds=("normal", "int")))
         c["uw"] = draw(st.sampled_from(["none", "ones", "pos"]))
         c["pseed"] = draw(gen.seeds)
+    if ls_end:
+        # first-class citizen: runs that END on a line-search sweep (even sweep index > 5, i.e. caps 7 / 9 / 11 / 13 reached
+        # with a tiny tolerance) with a single declared mode well represented, on data generated from sparse non-negative
+        # PARAFAC2 factors (entries of A / C that converge to 0 from above are overshot by the extrapolation)
+        c["linesearch"] = True
+        c["n_iter"] = draw(st.sampled_from([7, 7, 7, 9, 9, 11, 13]))
+        c["tol"] = draw(st.sampled_from([1e-14, 1e-12, 0]))
+        c["nn"] = draw(st.sampled_from([[0], [0], [0], [0], [0], [2], [2], [0, 2], [0, 1, 2], "all", [0, 1], [1, 2]]))
+        c["nn_tuple"] = draw(st.booleans())
+        c["kind"] = draw(st.sampled_from(["sparse_p2", "sparse_p2", "sparse_p2", "sparse_p2", "lowrank_nonneg", "nonneg"]))
+        c["noise"] = draw(st.sampled_from([0.0, 0.0, 1e-3, 1e-2, 1e-1]))
+        c["n_iter_parafac"] = draw(st.sampled_from([1, 1, 2, 2, 3]))
+        # measured under a "line-search iterate not clipped" change: rank 1 never overshoots, ranks 2-3 do
+        if c["rank"] == 1 and draw(st.integers(0, 7)) > 0:
+            c["rank"] = min(2, K)
+            c["Js"] = [max(j, c["rank"]) for j in c["Js"]]
+            for key in ("uA", "uC", "uB", "uw", "pseed"):
+                c.pop(key, None)
+            if c["init"].startswith("user"):
+                c["init"] = "random"
     if ls_all:       # regression class of N5 (fixed): nn_modes="all" + a line-search iteration
         c["linesearch"], c["nn"], c["n_iter"] = True, "all", max(c["n_iter"], 7)
         if c["tol"] == 0:
@@ -342,6 +362,20 @@ def _p2_slices(c):
     n, K, r = len(c["Js"]), c["K"], c["rank"]
     k = c["kind"]
     out = []
+    if k == "sparse_p2":
+        # sparse non-negative PARAFAC2 factors: A and C have exact zeros (every column keeps a non-zero), B_i = P_i B
+        A = np.abs(rs.standard_normal((n, r))) * (rs.uniform(size=(n, r)) < 0.6)
+        C = np.abs(rs.standard_normal((K, r))) * (rs.uniform(size=(K, r)) < 0.7)
+        for M in (A, C):
+            for j in range(r):
+                if not M[:, j].any():
+                    M[rs.randint(M.shape[0]), j] = 1.0
+        B = rs.standard_normal((r, r))
+        for i, J in enumerate(c["Js"]):
+            P = gen.orthonormal(int(rs.randint(0, 2 ** 31 - 1)), J, r)
+            sl = P @ B @ np.diag(A[i]) @ C.T
+            out.append(sl + c.get("noise", 0.0) * rs.standard_normal(sl.shape))
+        return out
     if k == "lowrank_nonneg":
         A = np.abs(rs.standard_normal((n, r))) + 0.1
         C = np.abs(rs.standard_normal((K, r)))
@@ -382,6 +416,8 @@ def o_p2(c):
         else:
             init = (w, [A, B, C])
     nn = c["nn"] if c["nn"] == "all" else list(c["nn"])
+    if c.get("nn_tuple") and nn != "all":
+        nn = tuple(nn)
     res = parafac2(data, r, n_iter_max=c["n_iter"], init=init, normalize_factors=c["normalize"], tol=c["tol"],
                    nn_modes=nn, random_state=c["seed"], n_iter_parafac=c["n_iter_parafac"],
                    linesearch=c["linesearch"])
@@ -444,6 +480,7 @@ def subchecks(tier):
     S.append(SubCheck("constrained_cp/dict", _constrained_case("dict"), o_constrained, quick=250, thorough=2000, discard_exc=LIN))
     # PARAFAC2
     S.append(SubCheck("parafac2/nn", _p2_case((0, 9)), o_p2, quick=200, thorough=1500, discard_exc=LIN))
+    S.append(SubCheck("parafac2/linesearch_end", _p2_case((7, 13), ls_end=True), o_p2, quick=200, thorough=800, discard_exc=LIN))
     S.append(SubCheck("parafac2/linesearch_tol0", _p2_case((7, 9), ls_tol0=True), o_p2, quick=60, thorough=100, discard_exc=LIN))
     S.append(SubCheck("parafac2/linesearch_nn_all", _p2_case((7, 9), ls_all=True), o_p2, quick=60, thorough=100, discard_exc=LIN))
     return S
